@@ -81,6 +81,13 @@ def _run(ctx, rng, big, events):
     P = [util.mkiface('P0', module=mod), util.mkiface('P1', module=mod)]
     P.append(util.mkiface('P2', (P[0],), module=mod))
     P.append(util.mkiface('P3', (P[2], P[1]), module=mod))
+    from zope.interface.interface import InterfaceClass
+    # equal-keyed re-definitions with the same shape (the twin of a base is the base of the twin), as a reloaded
+    # module would produce them
+    twins = {}
+    for p in P:
+        twins[id(p)] = InterfaceClass(p.__name__, tuple(twins[id(b)] for b in p.__bases__ if b is not Interface) or (Interface,),
+                                      {}, __module__=mod)
     R = [util.mkiface('R0', module=mod), util.mkiface('R1', module=mod)]
     R.append(util.mkiface('R2', (R[0],), module=mod))
     classes = []
@@ -149,7 +156,20 @@ def _run(ctx, rng, big, events):
         accept = None      # list of acceptable event-kind sequences
         noevent = False
         where = {'op': op, 'comp': repr(c), 'provided': nm(prov), 'name': name, 'required': nm(req), 'info': info}
-        if op == 'reinit':
+        if op == 'reinit' and use_base and rng.random() < 0.5:
+            # the *base* is re-initialised (it gets new registries), the same bases are assigned again - as an
+            # application does after re-configuring - and the base gets its registrations back
+            ctx.op('reinit-base')
+            basec.__init__('zmon-base')
+            comps.__bases__ = cbases
+            for (bp, bn), bc in base_utils.items():
+                basec.registerUtility(bc, bp, bn)
+            for (brq, bp, bn), bc in base_adap.items():
+                basec.registerAdapter(bc, brq, bp, bn)
+            del events[:]
+            ctx.count('base_reinitialisations')
+            accept = [[]]
+        elif op == 'reinit':
             if rng.random() < 0.85:
                 continue
             ctx.op('reinit')
@@ -214,6 +234,7 @@ def _run(ctx, rng, big, events):
                     ctx.count('same_component_multi_name')
         elif op == 'uu':
             usec = rng.random() < .6
+            twin_key = rng.random() < 0.15
             if utils and rng.random() < 0.7:
                 (prov, name), (c0, i0) = rng.choice(list(utils.items()))
                 c = c0 if rng.random() < 0.5 else Comp(c0.k, -1, c0.h)
@@ -227,6 +248,11 @@ def _run(ctx, rng, big, events):
             elif form == 'inferred':
                 directlyProvides(c, prov)
                 r = comps.unregisterUtility(c, name=name)
+            elif twin_key:
+                # the provided interface named by an equal-keyed re-definition of it (a reloaded module): one interface
+                # as far as the library is concerned
+                r = comps.unregisterUtility(c if usec else None, twins[id(prov)], name)
+                ctx.count('unregistered_through_an_equal_twin_interface')
             else:
                 r = comps.unregisterUtility(c if usec else None, prov, name)
             should = old is not None and (not usec or old[0] == c)
